@@ -267,6 +267,46 @@ class Repo:
         for m in self.modules.values():
             yield from m.functions.values()
 
+    def _local_instance_class(self, fi: FunctionInfo, name: str) -> Optional[ClassInfo]:
+        """the package class a local of `fi` is an instance of, when every binding of the name in `fi` is
+        `name = Class(...)` or `with Class(...) as name` for one and the same class of the package"""
+        found: Optional[ClassInfo] = None
+        bindings = 0
+        a = fi.node.args  # type: ignore[attr-defined]
+        if any(x.arg == name for x in a.posonlyargs + a.args + a.kwonlyargs) or (a.vararg and a.vararg.arg == name) or (a.kwarg and a.kwarg.arg == name):
+            return None
+        for n in walk_no_nested(fi.node):
+            srcs: List[Optional[ast.AST]] = []
+            if isinstance(n, ast.Assign) and any(isinstance(t, ast.Name) and t.id == name for t in n.targets):
+                srcs.append(n.value)
+            elif isinstance(n, ast.AnnAssign) and isinstance(n.target, ast.Name) and n.target.id == name:
+                srcs.append(n.value)
+            elif isinstance(n, (ast.With, ast.AsyncWith)):
+                for it in n.items:
+                    if isinstance(it.optional_vars, ast.Name) and it.optional_vars.id == name:
+                        srcs.append(it.context_expr)
+            elif isinstance(n, (ast.For, ast.AugAssign, ast.NamedExpr)) and any(isinstance(t, ast.Name) and t.id == name and isinstance(t.ctx, ast.Store) for t in ast.walk(n.target)):
+                return None
+            elif isinstance(n, (ast.Tuple, ast.List)) and isinstance(n.ctx, ast.Store) and any(isinstance(t, ast.Name) and t.id == name for t in ast.walk(n)):
+                return None
+            for src in srcs:
+                bindings += 1
+                if not isinstance(src, ast.Call):
+                    return None
+                dn = dotted(src.func)
+                if dn is None:
+                    return None
+                fqc = fi.module.resolve(dn)
+                ci = None
+                for modname in sorted(self.modules, key=len, reverse=True):
+                    if fqc.startswith(modname + "."):
+                        ci = self.modules[modname].classes.get(fqc[len(modname) + 1:])
+                        break
+                if ci is None or (found is not None and found is not ci):
+                    return None
+                found = ci
+        return found if bindings else None
+
     def resolve_callee(self, fi: FunctionInfo, call: ast.Call) -> Optional[FunctionInfo]:
         """Resolve the callee of `call` occurring in `fi` to a function of the package."""
         f = call.func
@@ -277,6 +317,10 @@ class Repo:
         head, _, rest = d.partition(".")
         if head in ("self", "cls") and fi.cls is not None and rest and "." not in rest:
             return self.method(fi.cls, rest)
+        if rest and "." not in rest and head not in mod.imports:
+            ci = self._local_instance_class(fi, head)
+            if ci is not None:
+                return self.method(ci, rest)
         fq = mod.resolve(d)
         # module-level function or Class.method or Class (constructor)
         for modname in sorted(self.modules, key=len, reverse=True):
